@@ -47,7 +47,7 @@ def default_output(d):
     if fam == "reduce":
         return (strip_brackets(d.ins[0]),)
     if fam == "elementwise":
-        names = [set(n for n in gen.names_of(t)) for t in d.ins]
+        names = [set(gen.names_of(t)) | ({"<anonymous ellipsis>"} if any(it[0] == "e" and it[1] is None for it in gen._walk(t)) else set()) for t in d.ins]
         if any(l[0] == "n" and l[1] != 1 for t in d.ins for l in gen.leaves(t)): return None
         cands = [i for i, s in enumerate(names) if all(o <= s for j, o in enumerate(names) if j != i)]
         if len(d.ins) == 1: return (d.ins[0],)
@@ -68,7 +68,7 @@ def default_output(d):
                 else: cur[1] = i
             else:
                 cur = None
-                if it[0] in "ge" and any(l[2] for l in gen.leaves([it]) ): return None
+                if it[0] in "ge" and (any(l[2] for l in gen.leaves([it])) or (it[0] == "e" and it[1] is None and it[2])): return None
         if len(runs) != 1: return None
         if runs[0][0] != runs[0][1] and not d.join: return None       # "[a] [b]" is two usages of brackets
         n = runs[0][1] - runs[0][0] + 1
@@ -85,13 +85,11 @@ def pairs_for(d):
         long = d._replace(outs=tuple(do))
         yield ("omitted-output", d._replace(outs=None), long, "equal", None)
         # 9 keepdims=True == parentheses around each bracket (reductions, short form)
-        if fam == "reduce" and all(it[0] in "an" for it in d.ins[0]):
+        if fam == "reduce" and all(it[0] in "an" for it in d.ins[0]) and not d.join:
             t = d.ins[0]; wrapped = []; i = 0
             while i < len(t):
                 if t[i][2]:
-                    j = i
-                    while d.join and j + 1 < len(t) and t[j + 1][2]: j += 1
-                    wrapped.append(("g", tuple(t[i:j + 1]))); i = j + 1
+                    wrapped.append(("g", (t[i],))); i += 1
                 else:
                     wrapped.append(t[i]); i += 1
             yield ("keepdims", d._replace(outs=None, kw={**d.kw, "keepdims": True}), d._replace(ins=(tuple(wrapped),), outs=None), "equal", None)
@@ -100,7 +98,11 @@ def pairs_for(d):
         if all(len(set(gen.names_of(t))) == len(gen.names_of(t)) for t in d.ins) and not any(l[0] == "n" and l[2] for t in d.ins for l in gen.leaves(t)):
             brn = {l[1] for t in d.ins for l in gen.leaves(t) if l[2]}
             outn = {l[1] for t in d.outs for l in gen.leaves(t)}
-            if brn and not (brn & outn):
+            unbr = {l[1] for t in d.ins for l in gen.leaves(t) if not l[2]}
+            anon = any(it[0] == "e" and it[1] is None for t in d.ins for it in gen._walk(t))
+            nums = any(l[0] == "n" for t in d.ins for l in gen.leaves(t))
+            # the documented expansion brackets ALL axes missing from the output: the long form must have exactly those bracketed
+            if brn and not (brn & outn) and unbr <= outn and not anon and not nums:
                 yield ("auto-brackets", d._replace(ins=tuple(clear_brackets(t) for t in d.ins)), d, "equal", None)
     if d.outs is None:
         return
@@ -141,9 +143,9 @@ def pairs_for(d):
             mid = "[" + " ".join(str(it[1]) for it in mid_in) + " -> " + " ".join(str(it[1]) for it in mid_out) + "]"
             yield ("nested-arrow", " ".join(x for x in (pre, mid, post) if x), d._replace(join=True), "text", None)
     # 10 length-1 coordinate bracket == no bracket
-    if fam == "argfind" and any(it == ("n", 1, True) for it in d.outs[0]):
+    if fam == "argfind" and any(it == ("n", 1, True) for it in d.outs[0]) and not any(it[0] == "e" for it in d.outs[0]):
         yield ("unit-bracket-argmax", d._replace(outs=(tuple(it for it in d.outs[0] if it != ("n", 1, True)),)), d, "squeeze-out", [i for i, it in enumerate(d.outs[0]) if it == ("n", 1, True)][0])
-    if fam == "get_at" and len(d.ins) == 2 and any(it == ("n", 1, True) for it in d.ins[1]) and all(it[0] in "an" for it in d.ins[1]):
+    if fam == "get_at" and len(d.ins) == 2 and any(it == ("n", 1, True) for it in d.ins[1]) and all(it[0] in "an" for it in d.ins[1]) and sum(1 for it in d.ins[0] if it[0] in "an" and it[2]) == 1:
         pos = [i for i, it in enumerate(d.ins[1]) if it == ("n", 1, True)][0]
         yield ("unit-bracket-get_at", d._replace(ins=(d.ins[0], tuple(it for it in d.ins[1] if it != ("n", 1, True)))), d, "squeeze-arg1", pos)
     # 11 additional spaces == single spaces
@@ -191,7 +193,9 @@ def compare(call_l, o_s, o_l, mode, extra):
         return None if o_s[1] == o_l[1] else f"short form raises {o_s[1]}, long form raises {o_l[1]}"
     a, b = o_s[1], o_l[1]
     if mode == "squeeze-out":
-        b = np.squeeze(np.asarray(b), axis=extra)
+        b = np.asarray(b)
+        if b.ndim <= extra or b.shape[extra] != 1: return f"long form result has shape {b.shape}: no unit dimension at position {extra}"
+        b = np.squeeze(b, axis=extra)
     if not calls.same_value(call_l, a, b):
         return f"values differ: short {np.asarray(a).shape} {np.asarray(a).ravel()[:8].tolist()} ; long {np.asarray(b).shape} {np.asarray(b).ravel()[:8].tolist()}"
     return None
@@ -236,9 +240,8 @@ def work(chunk):
                         desc_s = short
                         run_s = lambda: getattr(einx, d.op)(desc_s, *[a.copy() for a in args], **sizes_l, **kw_l, **bk)
                     elif mode == "spaces":
+                        # only redundant blanks: existing blanks tripled, blanks around '->' and ',', blanks just inside parentheses and brackets
                         desc_s = "  " + desc_l.replace(" ", "   ").replace(",", " , ").replace("->", "  ->  ").replace("(", "( ").replace(")", " )").replace("[", "[ ").replace("]", " ]") + " "
-                        desc_s = desc_s.replace("]   ...", "]...").replace(")   ...", ")...").replace(" ]...", " ]...")
-                        if "] ..." in desc_s or ") ..." in desc_s: continue
                         run_s = lambda: getattr(einx, d.op)(desc_s, *[a.copy() for a in args], **sizes_l, **kw_l, **bk)
                     elif mode == "rearrange":
                         desc_s = desc_l
@@ -246,16 +249,19 @@ def work(chunk):
                     elif mode == "expand":
                         ex = expand_ellipsis(cl)
                         if ex is None: hist["skip-expand"] += 1; continue
-                        desc_s, sizes_x = desc_l, sizes_l
-                        desc_l2, sizes_l2 = ex
+                        desc_s = desc_l
+                        desc_x, sizes_x2 = ex
+                        if "[" in desc_s and "[" not in desc_x:
+                            hist["skip-expand"] += 1; continue       # zero repetitions of the only bracket: the written-out text would switch to automatic bracketing
                         run_s = run_l
-                        run_l = lambda: getattr(einx, d.op)(desc_l2, *[a.copy() for a in args], **sizes_l2, **kw_l, **bk)
-                        desc_l = f"{desc_l2} {sizes_l2}"
+                        run_l = lambda: getattr(einx, d.op)(desc_x, *[a.copy() for a in args], **sizes_x2, **kw_l, **bk)
                         # 6: scalar size for an ellipsis axis == the repeated tuple
-                        for k, v in sizes_x.items():
+                        # (with the minimal keyword set, and with every named axis given explicitly so that equal values meet at different ellipsis depths)
+                        full = {k: v for k, v in (cl.env or {}).items() if k != "..."}
+                        for szs, k, v in [(z, k, v) for z in (sizes_l, full) for k, v in z.items()]:
                             if isinstance(v, tuple) and len(v) >= 1 and len(set(v)) == 1:
-                                o_t = outcome(lambda: getattr(einx, d.op)(desc_s, *[a.copy() for a in args], **sizes_x, **kw_l, **bk))
-                                o_i = outcome(lambda: getattr(einx, d.op)(desc_s, *[a.copy() for a in args], **{**sizes_x, k: v[0]}, **kw_l, **bk))
+                                o_t = outcome(lambda: getattr(einx, d.op)(desc_s, *[a.copy() for a in args], **szs, **kw_l, **bk))
+                                o_i = outcome(lambda: getattr(einx, d.op)(desc_s, *[a.copy() for a in args], **{**szs, k: v[0]}, **kw_l, **bk))
                                 hist["pairs"] += 1; hist["rule:scalar-size"] += 1
                                 m = compare(cl, o_i, o_t, "equal", None)
                                 if m and len(bad) < 40:
@@ -269,7 +275,7 @@ def work(chunk):
                         hist["DIFFER"] += 1
                         if len(bad) < 40:
                             bad.append(({"kind": "shorthand", "rule": rule, "op": d.op, "short": str(desc_s), "backend": str(be)},
-                                        f"[{rule}] einx.{d.op}({desc_s!r}) vs long form {desc_l!r} (shapes {cl.shapes}, backend {be}): {m}", {"desc": dj, "rule": rule}))
+                                        f"[{rule}] einx.{d.op}({desc_s!r}) vs long form {(desc_x + ' ' + str(sizes_x2)) if mode == 'expand' else desc_l!r} (shapes {cl.shapes}, backend {be}): {m}", {"desc": dj, "rule": rule}))
     return dict(hist), bad
 
 
